@@ -76,6 +76,8 @@ type c13Case struct {
 	Str   []int  `json:"str"` // as in C15
 	// NoSAR leaves SignAuthnRequests false (logout messages are signed regardless of it)
 	NoSAR bool `json:"no_sign_authn_requests,omitempty"`
+	// Chain: field key stores hold a two-certificate chain (leaf first)
+	Chain bool `json:"chain,omitempty"`
 }
 
 func c13SP(c c13Case) (*saml2.SAMLServiceProvider, string) {
@@ -90,12 +92,18 @@ func c13SP(c c13Case) (*saml2.SAMLServiceProvider, string) {
 	expected := k.expectedSigner()
 	if k.EncField {
 		sp.SPKeyStore = world.TLSKeyStore(c13SlotKey["enc-field"])
+		if c.Chain {
+			sp.SPKeyStore = world.TLSKeyStoreChain(c13SlotKey["enc-field"], "K2")
+		}
 	}
 	if k.EncSetter {
 		sp.SetSPKeyStore(world.SetterKeyStore(c13SlotKey["enc-setter"]))
 	}
 	if k.SigField {
 		sp.SPSigningKeyStore = world.TLSKeyStore(c13SlotKey["sig-field"])
+		if c.Chain {
+			sp.SPSigningKeyStore = world.TLSKeyStoreChain(c13SlotKey["sig-field"], "K2")
+		}
 	}
 	if k.SigSetter {
 		name := c13SlotKey["sig-setter"]
@@ -339,6 +347,9 @@ func c13Run(r *mc.Run) {
 					cases = append(cases, c13Case{Keys: ki, Alg: a, Canon: cn, Kind: kind, Str: make([]int, sCount)})
 					if kind != "AuthnRequest" {
 						cases = append(cases, c13Case{Keys: ki, Alg: a, Canon: cn, Kind: kind, Str: make([]int, sCount), NoSAR: true})
+					}
+					if kk := c13AllKeys()[ki]; (kk.EncField || kk.SigField) && a <= 1 && cn <= 1 {
+						cases = append(cases, c13Case{Keys: ki, Alg: a, Canon: cn, Kind: kind, Str: make([]int, sCount), Chain: true})
 					}
 				}
 			}
